@@ -47,8 +47,10 @@ def obligations(tier: str) -> list[Ob]:
         ("literal_enums", {"literal_enums": True}, ["enums"], ["params"]),
         ("class_overrides", {"class_overrides": {"Leaf": {"class_name": "RenamedLeaf", "module_name": "renamed_leaf_mod"}}}, ["nested"], ["bodies"]),
     ]
+    # content_type_overrides: the overridden media types behave as their targets and are still sent as themselves
+    variants.append(("content_type_overrides", {"content_type_overrides": {"application/zip": "application/octet-stream", "multipart/mixed": "multipart/form-data", "text/json": "application/json"}}, [], ["bodies"]))
     for label, cf, models, eps in variants:
-        a = skeleton_obs("C16", "model", ["rt_", "tri_"], tier, names=models, config=cf, label=f"same_wire_behaviour[{label}]")
+        a = skeleton_obs("C16", "model", ["rt_", "tri_"], tier, names=models, config=cf, label=f"same_wire_behaviour[{label}]") if models else []
         b = skeleton_obs("C16", "endpoint", ["req_", "resp_"], tier, names=eps, config=cf, label=f"same_wire_behaviour[{label}]")
         for o in a + b:
             o.params["replay_func"] = "vlib.props.C16:replay"
